@@ -198,6 +198,10 @@ pub mod masked {
 		pub code: CodeMask,
 		pub record_component: RecordComponentInterests,
 		pub declined: BTreeSet<(usize, Item, usize)>,
+		/// If set: the fields, methods (with their code) and record components with an odd index (per class, in
+		/// file order) report the `field` / `method` / `code` / `record_component` masks of this spec instead, so
+		/// that the members of one class do not all report the same interests.
+		pub odd: Option<Rc<MaskSpec>>,
 	}
 
 	impl MaskSpec {
@@ -210,10 +214,18 @@ pub mod masked {
 				code: CodeMask::all(),
 				record_component: RecordComponentInterests::all(),
 				declined: BTreeSet::new(),
+				odd: None,
 			}
 		}
 		fn is_declined(&self, class: usize, item: Item, index: usize) -> bool {
 			self.declined.contains(&(class, item, index))
+		}
+		/// the spec whose member-level masks the member with this index reports
+		fn for_member(this: &Rc<MaskSpec>, index: usize) -> Rc<MaskSpec> {
+			match &this.odd {
+				Some(odd) if index % 2 == 1 => odd.clone(),
+				_ => this.clone(),
+			}
 		}
 	}
 
@@ -362,7 +374,7 @@ pub mod masked {
 			Ok(match inner.visit_record_component(name, descriptor)? {
 				ControlFlow::Break(inner) => ControlFlow::Break(MaskedClass { inner, ctx }),
 				ControlFlow::Continue((residual, visitor)) => {
-					let spec = ctx.spec.clone();
+					let spec = MaskSpec::for_member(&ctx.spec, index);
 					ControlFlow::Continue(((residual, ctx), MaskedRecordComponent { inner: visitor, spec }))
 				},
 			})
@@ -386,7 +398,7 @@ pub mod masked {
 			Ok(match inner.visit_field(access, name, descriptor)? {
 				ControlFlow::Break(inner) => ControlFlow::Break(MaskedClass { inner, ctx }),
 				ControlFlow::Continue((residual, visitor)) => {
-					let spec = ctx.spec.clone();
+					let spec = MaskSpec::for_member(&ctx.spec, index);
 					ControlFlow::Continue(((residual, ctx), MaskedField { inner: visitor, spec }))
 				},
 			})
@@ -406,8 +418,8 @@ pub mod masked {
 			Ok(match inner.visit_method(access, name, descriptor)? {
 				ControlFlow::Break(inner) => ControlFlow::Break(MaskedClass { inner, ctx }),
 				ControlFlow::Continue((residual, visitor)) => {
-					let spec = ctx.spec.clone();
-					let decline_code = spec.is_declined(ctx.class_index, Item::Code, index);
+					let spec = MaskSpec::for_member(&ctx.spec, index);
+					let decline_code = ctx.spec.is_declined(ctx.class_index, Item::Code, index);
 					ControlFlow::Continue(((residual, ctx), MaskedMethod { inner: visitor, spec, decline_code }))
 				},
 			})
